@@ -1114,12 +1114,20 @@ func escapedTextLen(s string) int {
 }
 
 func compressionLenSearch(c map[string]struct{}, s string, msgOff int) (int, bool) {
+	escaped := strings.IndexByte(s, '\\') >= 0
 	for off, end := 0, false; !end; off, end = NextLabel(s, off) {
 		if _, ok := c[s[off:]]; ok {
 			return off, true
 		}
 
-		if msgOff+off < maxCompressionOffset {
+		// A label can be pointed at when it starts below maxCompressionOffset
+		// in the message (see packDomainName); off is an offset in the text
+		// of the name, where an escape sequence takes more than one octet.
+		wireOff := off
+		if escaped {
+			wireOff = escapedNameLen(s[:off])
+		}
+		if msgOff+wireOff < maxCompressionOffset {
 			c[s[off:]] = struct{}{}
 		}
 	}
